@@ -30,7 +30,7 @@ type Obligation struct {
 	Seconds float64
 	Bytes   int
 	Model   string
-	Excused string // known-finding id when proved under ¬excuse
+	Excused string   // known-finding id when proved under ¬excuse
 	Extra   []string // definitions appended after the prefix (excuse / observable terms)
 	Raw     string
 }
@@ -81,18 +81,18 @@ func (s *State) clone() *State {
 }
 
 type Frame struct {
-	fn       *ssa.Function
-	vals     map[ssa.Value]*Val
-	prefix   string
-	depth    int
-	parent   *Frame
-	entry    *State // for old()
-	contract *Contract
-	args     []*Val
-	exits    []exitRec
-	stack    []*ssa.Function
-	siteN    map[string]int
-	ranks    map[string]map[token.Pos]int
+	fn           *ssa.Function
+	vals         map[ssa.Value]*Val
+	prefix       string
+	depth        int
+	parent       *Frame
+	entry        *State // for old()
+	contract     *Contract
+	args         []*Val
+	exits        []exitRec
+	stack        []*ssa.Function
+	siteN        map[string]int
+	ranks        map[string]map[token.Pos]int
 	curCallClass string
 	siteInvs     []*Clause // call-site invariants of the call being encoded (see Contract.CallInvariants)
 	siteKey      string
@@ -122,18 +122,18 @@ type loopInfo struct {
 }
 
 type Enc struct {
-	P        *Program
-	DB       *SpecDB
-	TI       *TypeInfo
-	out      []string
-	declared map[string]string // symbol -> sort/signature
-	nfresh   int
-	obls     []*Obligation
-	panics   []*PanicSite
-	heapSort map[string]string // heap key -> sort
-	strLits  map[string]string
+	P           *Program
+	DB          *SpecDB
+	TI          *TypeInfo
+	out         []string
+	declared    map[string]string // symbol -> sort/signature
+	nfresh      int
+	obls        []*Obligation
+	panics      []*PanicSite
+	heapSort    map[string]string // heap key -> sort
+	strLits     map[string]string
 	unsupported []string // reasons that put the function out of reach
-	notes    []string
+	notes       []string
 	// evidence bookkeeping
 	usedContracts   map[string]int
 	inlined         map[string]int
@@ -152,17 +152,17 @@ type Enc struct {
 	dryCache        []dryCached
 	applyCells      map[string]*Val // captured-variable cells while a closure's contract is applied at a call site
 	recGhost        map[string]bool
-	trustedClauses  []string // "trusted ensures" clauses of the function under verification (not checked)
+	trustedClauses  []string        // "trusted ensures" clauses of the function under verification (not checked)
 	closedFacts     map[string]bool // universally closed side facts already emitted (bound names normalised)
 	axiomLines      []axiomLine
 	bseqSeen        map[string]bool
-	writeRef        string          // reference through which the heap write in progress goes ("" = unknown)
-	writeTarget     string          // the object actually written when it differs from writeRef (append: old backing or a new one)
-	freshCtx        []string        // names of the enclosing loops that carry `fresh_writes` (innermost last)
+	writeRef        string   // reference through which the heap write in progress goes ("" = unknown)
+	writeTarget     string   // the object actually written when it differs from writeRef (append: old backing or a new one)
+	freshCtx        []string // names of the enclosing loops that carry `fresh_writes` (innermost last)
 	implCache       map[string][]types.Type
 	dryNonLocal     map[string]bool // result of the last loop dry run
 	writeNonLocal   map[string]bool // heap keys written through a reference that was not allocated by this function
-	qscope          [][2]string // quantified variables of the specification expression being evaluated: (symbol, sort)
+	qscope          [][2]string     // quantified variables of the specification expression being evaluated: (symbol, sort)
 }
 
 func newEnc(P *Program, db *SpecDB, ti *TypeInfo) *Enc {
